@@ -36,17 +36,25 @@ package metric
 // ======================================================================== C08 observable instruments: one observer per pipeline
 // the observer handed to a callback registered with a pipeline records into exactly that pipeline's measures
 //@ func (m *meter) float64ObservableInstrument$1() (r float64Observable, err error)
-//@   prop C08
+//@   prop C08 C02
 //@   overflow assumed
 //@   unchecked frame,no-panic pipeline and resolver plumbing is outside the contracts
 //@   acquires pipeline.Mutex
 //@   assert@store measures#2 : $val === in
+// the measures registered with a pipeline (what RegisterCallback observers of that pipeline record into) are exactly the ones
+// this pipeline's inserter returned - not the instrument's accumulated list over all pipelines
+//@   assert@call pipeline.addFloat64Measure#* : $arg0 == insert.pipeline && $arg2 === in
+//@   assert@call inserter[float64].Instrument#* : $arg0 == insert
 //@ func (m *meter) int64ObservableInstrument$1() (r int64Observable, err error)
-//@   prop C08
+//@   prop C08 C02
 //@   overflow assumed
 //@   unchecked frame,no-panic pipeline and resolver plumbing is outside the contracts
 //@   acquires pipeline.Mutex
 //@   assert@store measures#2 : $val === in
+// the measures registered with a pipeline (what RegisterCallback observers of that pipeline record into) are exactly the ones
+// this pipeline's inserter returned - not the instrument's accumulated list over all pipelines
+//@   assert@call pipeline.addInt64Measure#* : $arg0 == insert.pipeline && $arg2 === in
+//@   assert@call inserter[int64].Instrument#* : $arg0 == insert
 
 // ======================================================================== C12 several matching views: no measurement is duplicated
 // inserter.Instrument: the aggregate functions attached to an instrument are de-duplicated by the IDENTITY the aggregator cache
